@@ -330,20 +330,23 @@ Definition recv_message (s : state) (bs : list batch) : step bool :=
              if 0 <? Z.of_nat (q s2) then Ret true (pop_msg s2) bs2 else Ret false s2 bs2
          end).
 
-(* Stream.recv_trailing_metadata; the outgoing stream was ended by the send phase of every program *)
+(* Stream.recv_trailing_metadata; the outgoing stream was ended by the send phase of every program.
+   protocol.Stream.recv_trailers waits for trailers_received, which TrailersReceived AND the end of the
+   stream set; woken without trailers it returns [] and _process_grpc_status({}) raises UNKNOWN. *)
+Definition trl_ready (s : state) : bool := has_trl s || eof s.
 Definition recv_trailing (s : state) (bs : list batch) : step unit :=
   if negb (ri_done s) then Raise XProtocol s bs
   else if rt_done s then Raise XProtocol s bs
   else if tonly s then Ret tt (set_rt s) bs
   else if werr s then Raise XTerminated s bs
-  else match wait has_trl s bs with
+  else match wait trl_ready s bs with
        | WHang => Hangs
        | WTerm s' bs' => Raise XTerminated s' bs'
        | WReady s' bs' =>
+           let s1 := set_rt s' in
            match trl s' with
-           | None => Stuck
+           | None => Raise (XBadGrpcStatus BTrl) s1 bs'        (* the stream ended without trailers *)
            | Some t =>
-               let s1 := set_rt s' in
                match ti_gs t with
                | GsAbsent | GsInvalid => Raise (XBadGrpcStatus BTrl) s1 bs'    (* _process_grpc_status *)
                | g =>
@@ -569,7 +572,11 @@ Definition resolve (codec : bool) (es : list cevent) (r : result) : obs :=
               | None => OGrpc (nth 0 grpc_status_statuses (-1)) MClient DAbsent
               | Some _ => OGrpc (nth 1 grpc_status_statuses (-1)) MClient DAbsent
               end
-          | None => OInternal
+          | None =>
+              match b with
+              | BTrl => OGrpc (nth 0 grpc_status_statuses (-1)) MClient DAbsent   (* no trailers at all *)
+              | BHdr => OInternal
+              end
           end
       | XServer b =>
           match block_of b es with
@@ -659,7 +666,8 @@ Definition gs_eqb (a b : gs_class) : bool :=
                     acceptable response;
      mandated       non-200 :status;
      UNKNOWN        :status 200 and (content-type missing/invalid, or grpc-status invalid, or grpc-status
-                    missing from the trailers / from a response that ended without trailers);
+                    missing from the trailers / from a response that ended without trailers -- whether or
+                    not something cuts the connection after that end);
      termination    the response was cut and no grpc-status arrived at all -- or the one that arrived is
                     OK (a GRPCError cannot carry OK; the statement leaves that cell open);
      hang           never, once the script ends in END_STREAM or a cut;
@@ -676,7 +684,7 @@ Definition spec_allows (bs : list batch) (r : result) : bool :=
     h200 && (negb acc || gs_eqb (h_gs h) GsInvalid
              || match t with
                 | Some t => gs_eqb (ti_gs t) GsAbsent || gs_eqb (ti_gs t) GsInvalid
-                | None => ended && negb cut && gs_eqb (h_gs h) GsAbsent
+                | None => ended && gs_eqb (h_gs h) GsAbsent
                 end) in
   match r with
   | ROk _ => acc && (gs_eqb (h_gs h) GsOk || gs_eqb (t_gs t) GsOk)
@@ -712,12 +720,7 @@ Definition status_ok_received (bs : list batch) : bool :=
 Definition d2d (k : kind) (bs : list batch) : bool :=
   match k with Call _ false => Nat.eqb (count_data bs) 0 && status_ok_received bs | _ => false end.
 Definition has_trl_ev (es : list aevent) : bool := match ev_trl es with Some _ => true | None => false end.
-(* D2e: an acceptable response ends with END_STREAM without trailers and without grpc-status in the
-   headers, and is not cut *)
-Definition d2e (k : kind) (bs : list batch) : bool :=
-  let es := events bs in
-  ev_ended es && negb (ev_cut es false) && negb (has_trl_ev es) && gs_eqb (h_gs (ev_hdr es)) GsAbsent
-  && acceptable (ev_hdr es).
+(* (D2e -- END_STREAM without trailers made the call hang -- was repaired in /repo: no class any more) *)
 (* D2f: open() context, GOAWAY / connection loss delivered inline (before a step or before the exit) *)
 Definition closing_event (e : aevent) : bool := match e with AGoaway | ALost => true | _ => false end.
 Definition d2f (k : kind) (bs : list batch) : bool :=
@@ -740,7 +743,7 @@ Definition d2g (k : kind) (bs : list batch) : bool :=
   | None => false
   end.
 Definition defect (k : kind) (bs : list batch) : bool :=
-  d2c k bs || d2d k bs || d2e k bs || d2f k bs || d2g k bs.
+  d2c k bs || d2d k bs || d2f k bs || d2g k bs.
 
 (* ---- enumeration of the bounded abstract domain ---- *)
 Definition all_st : list st_class := [S200; SNot200].
